@@ -146,7 +146,43 @@ fn judge_sym(text: &str, table: &Table, acc: &mut Acc, fam: &str) {
 }
 
 /// literal spellings with the default number matcher and the default float table
+/// eval_str and exmex::parse are documented as "parse (and evaluate)": on every text they must
+/// accept exactly what FlatEx::parse accepts (eval_str: without variables) with the same value
+fn entry_point_differential(text: &str, acc: &mut Acc) {
+    let same = |a: f64, b: f64| a.to_bits() == b.to_bits() || (a.is_nan() && b.is_nan());
+    let flat = guard(|| FlatEx::<f64>::parse(text).ok().map(|f| (f.var_names().len(), if f.var_names().is_empty() { f.eval(&[]).ok() } else { None })));
+    let es = guard(|| exmex::eval_str::<f64>(text).ok());
+    let ep = guard(|| exmex::parse::<f64>(text).ok().map(|f| f.var_names().len()));
+    acc.transitions += 3;
+    let bad = match (&flat, &es, &ep) {
+        (Err(p), _, _) | (_, Err(p), _) | (_, _, Err(p)) => Some(format!("PANIC {p}")),
+        (Ok(fl), Ok(es), Ok(ep)) => {
+            let want_es = match fl {
+                Some((0, Some(v))) => Some(*v),
+                _ => None,
+            };
+            if fl.map(|x| x.0) != *ep {
+                Some(format!("exmex::parse accepts: {:?}, FlatEx::parse accepts: {:?}", ep.is_some(), fl.is_some()))
+            } else {
+                match (want_es, es) {
+                    (Some(a), Some(b)) if same(a, *b) => None,
+                    (None, None) => None,
+                    (a, b) => Some(format!("eval_str gives {b:?}, FlatEx::parse + eval gives {a:?}")),
+                }
+            }
+        }
+    };
+    if let Some(b) = bad {
+        acc.violate(Violation {
+            signature: format!("f-literals:entry-points-differ:{}", b.chars().take(9).collect::<String>()),
+            what: format!("[f-literal-spellings] on {text:?}: {b}"),
+            case: json!({"engine": "c13-f64", "text": text}),
+        });
+    }
+}
+
 fn judge_f64(text: &str, table: &Table, acc: &mut Acc) {
+    entry_point_differential(text, acc);
     match spec::read(text, table, LitKind::Number) {
         SpecResult::Ok(tree) => {
             acc.states += 1;
